@@ -233,7 +233,9 @@ func init() {
 			}
 			return true
 		}
+		w.ext["settling"] = true // the order in which the others run to their blocking points is not explored
 		w.block(t, "Settle", cond)
+		delete(w.ext, "settling")
 		return nil
 	})
 	reg("verifnd.HTTPPosts", func(w *World, t *Thread, fr *frame, fn *ssa.Function, args []Value) Value {
@@ -335,6 +337,22 @@ func init() {
 			}
 		}
 		return w.tt.Bool(leak)
+	})
+	reg("verifnd.PreemptOnlyAt", func(w *World, t *Thread, fr *frame, fn *ssa.Function, args []Value) Value {
+		set := map[interface{}]bool{}
+		for _, a := range args[0].([]Value) {
+			if itf, ok := a.(Iface); ok {
+				if p, ok := itf.v.(*Value); ok && p != nil {
+					set[p] = true
+				}
+			}
+		}
+		w.ext["preemptonly"] = set
+		return nil
+	})
+	reg("verifnd.FirstTouchReduction", func(w *World, t *Thread, fr *frame, fn *ssa.Function, args []Value) Value {
+		w.ext["firsttouch"] = true
+		return nil
 	})
 	reg("verifnd.Thorough", func(w *World, t *Thread, fr *frame, fn *ssa.Function, args []Value) Value {
 		return w.tt.Bool(currentTier == "thorough")
